@@ -114,6 +114,8 @@ theorem svcT_armTtl (s : Stack) (ttl : Nat) (cb : Cb) (h : isSvcExpiry cb = fals
 @[simp] theorem svcT_with_flushLog (s : Stack) (x : List (Dest × List SDEntry)) : svcT { s with flushLog := x } = svcT s := rfl
 @[simp] theorem svcT_with_subLog (s : Stack) (x : List (Addr × Nat × List Eventgroup)) : svcT { s with subLog := x } = svcT s := rfl
 @[simp] theorem svcT_with_findLog (s : Stack) (x : List (Nat × Nat)) : svcT { s with findLog := x } = svcT s := rfl
+@[simp] theorem svcT_with_findMarks (s : Stack) (x : List (Nat × Nat)) : svcT { s with findMarks := x } = svcT s := rfl
+@[simp] theorem svcT_markFind (s : Stack) (n : Nat) : svcT (s.markFind n) = svcT s := rfl
 @[simp] theorem svcT_with_offLog (s : Stack) (x : List (Nat × OEv × Nat)) : svcT { s with offLog := x } = svcT s := rfl
 @[simp] theorem svcT_logOffer (s : Stack) (i : Nat) (e : OEv) : svcT (s.logOffer i e) = svcT s := rfl
 @[simp] theorem svcT_with_subMarks (s : Stack) (x : List (Option Nat × Nat)) : svcT { s with subMarks := x } = svcT s := rfl
